@@ -339,15 +339,17 @@ def check_quadrature(rep, prog):
            what='slice with gamma2 most deleterious (index 0) pairs with the gamma2 weight over [min_gamma, inf) etc. for all four edges')
     # corners
     corners = {}
+    sym_prev = {}
     last_w = None
     for n in f2.body:
         stmts = [n] if not isinstance(n, ast.If) else n.body
+        before_if = last_w
         for s_ in stmts:
             if isinstance(s_, ast.Assign) and isinstance(s_.value, ast.Call) and _last(dotted(s_.value.func)) == 'dblquad':
                 c = s_.value
                 xr = [ast.unparse(a) for a in c.args[1:3]]
                 yr = [ast.unparse(a.body) if isinstance(a, ast.Lambda) else ast.unparse(a) for a in c.args[3:5]]
-                last_w = (xr, yr, isinstance(n, ast.If) and ast.unparse(n.test))
+                last_w = (xr, yr, isinstance(n, ast.If) and ast.unparse(n.test), before_if if isinstance(n, ast.If) else None)
         if isinstance(n, ast.AugAssign) and isinstance(n.value, ast.BinOp) and ast.unparse(n.value.right) == 'weight' and ast.unparse(n.value.left).startswith('spectra['):
             corners[ast.unparse(n.value.left)] = last_w
     rngname = {"['0', 'max_gamma']": '-1', "['min_gamma', 'np.inf']": '0'}
@@ -356,13 +358,24 @@ def check_quadrature(rep, prog):
     for sl, w in sorted(corners.items()):
         mm = re.fullmatch(r'spectra\[(-?\d), (-?\d)\]', sl)
         i1, i2 = mm.group(1), mm.group(2)
-        xr, yr, cond = w
+        xr, yr, cond, prev = w
         # dblquad(func, a, b, gfun, hfun) integrates func(y, x): x in [a, b] is the SECOND argument (gamma2), y the first (gamma1)
         e2, e1 = rngname.get(str(xr)), rngname.get(str(yr))
         mirrored = cond == 'not symmetric_dfe'
         ok_ = (e1 == i1 and e2 == i2) or (mirrored and False)
         if cond == 'not symmetric_dfe':
             ok_ = e1 == i1 and e2 == i2
+            # symmetric pdfs skip the quadrature and reuse the weight that is in scope: it must be the mass of the MIRRORED
+            # quadrant (gamma1 and gamma2 ranges exchanged), which is equal by symmetry
+            if prev is None:
+                ok_ = False
+                det.append('%s: no weight in scope for symmetric pdfs' % sl)
+            else:
+                p2, p1 = rngname.get(str(prev[0])), rngname.get(str(prev[1]))
+                okm_ = (p1 == i2 and p2 == i1)
+                ok_ = ok_ and okm_
+                if not okm_:
+                    det.append('%s: for symmetric pdfs the reused weight is the mass of gamma1 in %s, gamma2 in %s, not of the mirrored quadrant' % (sl, prev[1], prev[0]))
         det.append('%s <- gamma1 in %s, gamma2 in %s%s' % (sl, yr, xr, ' (computed only for asymmetric pdfs; symmetric pdfs reuse the mirrored corner)' if mirrored else ''))
         okc = okc and ok_
     rep.ob('R-TPL', 'Cache2D.integrate corner terms', okc and len(corners) >= 3, '; '.join(det), m2.rel, f2.lineno, what='each corner spectrum is paired with the mass of the matching quadrant (index 0 <-> [min_gamma, inf), -1 <-> [0, max_gamma])')
